@@ -276,7 +276,7 @@ def selection_case(cfg):
     if cfg["load"]["libsnark"]:
         paths.append(os.path.join(backends.SHIMS, "libsnark_stub"))
     envv = {k: v for k, v in os.environ.items() if k not in ("PYSNARK_BACKEND", "QAPTOOLS_BIN", "PYTHONPATH")}
-    envv.update({"PYTHONPATH": os.pathsep.join(paths), "PYTHONDONTWRITEBYTECODE": "1", "PYTHONHASHSEED": "0",
+    envv.update({"PYTHONPATH": os.pathsep.join(paths) + core.COVPATH, "PYTHONDONTWRITEBYTECODE": "1", "PYTHONHASHSEED": "0",
                  "QAPTOOLS_BIN": os.path.join(backends.SHIMS, "qapbin") if cfg["load"]["qaptools"] else "/nonexistent-qaptools-dir"})
     if cfg["env"] is not None:
         envv["PYSNARK_BACKEND"] = cfg["env"]
